@@ -881,167 +881,163 @@ class WCS(GWCSAPIMixin):
         inddiv = None
 
         # Turn off numpy runtime warnings for 'invalid' and 'over':
-        old_invalid = np.geterr()['invalid']
-        old_over = np.geterr()['over']
-        np.seterr(invalid='ignore', over='ignore')
+        with np.errstate(invalid='ignore', over='ignore'):
 
-        # ############################################################
-        # #                NON-ADAPTIVE ITERATIONS:                 ##
-        # ############################################################
-        if not adaptive:
-            # Fixed-point iterations:
-            while (np.nanmax(dn) >= tol2 and k < maxiter):
-                # Find correction to the previous solution:
-                dpix = correction(pix)
+            # ############################################################
+            # #                NON-ADAPTIVE ITERATIONS:                 ##
+            # ############################################################
+            if not adaptive:
+                # Fixed-point iterations:
+                while (np.nanmax(dn) >= tol2 and k < maxiter):
+                    # Find correction to the previous solution:
+                    dpix = correction(pix)
 
-                # Compute norm (L2) squared of the correction:
-                dn = np.sum(dpix * dpix, axis=1)
+                    # Compute norm (L2) squared of the correction:
+                    dn = np.sum(dpix * dpix, axis=1)
 
-                # Check for divergence (we do this in two stages
-                # to optimize performance for the most common
-                # scenario when successive approximations converge):
+                    # Check for divergence (we do this in two stages
+                    # to optimize performance for the most common
+                    # scenario when successive approximations converge):
 
-                if detect_divergence:
-                    divergent = (dn >= dnprev)
-                    if np.any(divergent):
-                        # Find solutions that have not yet converged:
-                        slowconv = (dn >= tol2)
-                        inddiv, = np.where(divergent & slowconv)
+                    if detect_divergence:
+                        divergent = (dn >= dnprev)
+                        if np.any(divergent):
+                            # Find solutions that have not yet converged:
+                            slowconv = (dn >= tol2)
+                            inddiv, = np.where(divergent & slowconv)
 
-                        if inddiv.shape[0] > 0:
-                            # Update indices of elements that
-                            # still need correction:
-                            conv = (dn < dnprev)
-                            iconv = np.where(conv)
+                            if inddiv.shape[0] > 0:
+                                # Update indices of elements that
+                                # still need correction:
+                                conv = (dn < dnprev)
+                                iconv = np.where(conv)
 
-                            # Apply correction:
-                            dpixgood = dpix[iconv]
-                            pix[iconv] -= dpixgood
-                            dpix[iconv] = dpixgood
+                                # Apply correction:
+                                dpixgood = dpix[iconv]
+                                pix[iconv] -= dpixgood
+                                dpix[iconv] = dpixgood
 
-                            # For the next iteration choose
-                            # non-divergent points that have not yet
-                            # converged to the requested accuracy:
-                            ind, = np.where(slowconv & conv)
-                            world = world[ind]
-                            dnprev[ind] = dn[ind]
-                            k += 1
+                                # For the next iteration choose
+                                # non-divergent points that have not yet
+                                # converged to the requested accuracy:
+                                ind, = np.where(slowconv & conv)
+                                world = world[ind]
+                                dnprev[ind] = dn[ind]
+                                k += 1
 
-                            # Switch to adaptive iterations:
-                            adaptive = True
-                            break
+                                # Switch to adaptive iterations:
+                                adaptive = True
+                                break
 
-                    # Save current correction magnitudes for later:
-                    dnprev = dn
-
-                # Apply correction:
-                pix -= dpix
-                k += 1
-
-        # ############################################################
-        # #                  ADAPTIVE ITERATIONS:                   ##
-        # ############################################################
-        if adaptive:
-            if ind is None:
-                ind, = np.where(np.isfinite(pix).all(axis=1))
-                world = world[ind]
-
-            # "Adaptive" fixed-point iterations:
-            while (ind.shape[0] > 0 and k < maxiter):
-                # Find correction to the previous solution:
-                dpixnew = correction(pix[ind])
-
-                # Compute norm (L2) of the correction:
-                dnnew = np.sum(np.square(dpixnew), axis=1)
-
-                # Bookkeeping of corrections:
-                dnprev[ind] = dn[ind].copy()
-                dn[ind] = dnnew
-
-                if detect_divergence:
-                    # Find indices of pixels that are converging:
-                    conv = np.logical_or(dnnew < dnprev[ind], dnnew < tol2)
-                    if not np.all(conv):
-                        conv = np.ones_like(dnnew, dtype=bool)
-                    iconv = np.where(conv)
-                    iiconv = ind[iconv]
+                        # Save current correction magnitudes for later:
+                        dnprev = dn
 
                     # Apply correction:
-                    dpixgood = dpixnew[iconv]
-                    pix[iiconv] -= dpixgood
-                    dpix[iiconv] = dpixgood
+                    pix -= dpix
+                    k += 1
 
-                    # Find indices of solutions that have not yet
-                    # converged to the requested accuracy
-                    # AND that do not diverge:
-                    subind, = np.where((dnnew >= tol2) & conv)
+            # ############################################################
+            # #                  ADAPTIVE ITERATIONS:                   ##
+            # ############################################################
+            if adaptive:
+                if ind is None:
+                    ind, = np.where(np.isfinite(pix).all(axis=1))
+                    world = world[ind]
 
-                else:
-                    # Apply correction:
-                    pix[ind] -= dpixnew
-                    dpix[ind] = dpixnew
+                # "Adaptive" fixed-point iterations:
+                while (ind.shape[0] > 0 and k < maxiter):
+                    # Find correction to the previous solution:
+                    dpixnew = correction(pix[ind])
 
-                    # Find indices of solutions that have not yet
-                    # converged to the requested accuracy:
-                    subind, = np.where(dnnew >= tol2)
+                    # Compute norm (L2) of the correction:
+                    dnnew = np.sum(np.square(dpixnew), axis=1)
 
-                # Choose solutions that need more iterations:
-                ind = ind[subind]
-                world = world[subind]
+                    # Bookkeeping of corrections:
+                    dnprev[ind] = dn[ind].copy()
+                    dn[ind] = dnnew
 
-                k += 1
+                    if detect_divergence:
+                        # Find indices of pixels that are converging:
+                        conv = np.logical_or(dnnew < dnprev[ind], dnnew < tol2)
+                        if not np.all(conv):
+                            conv = np.ones_like(dnnew, dtype=bool)
+                        iconv = np.where(conv)
+                        iiconv = ind[iconv]
 
-        # ############################################################
-        # #         FINAL DETECTION OF INVALID, DIVERGING,          ##
-        # #         AND FAILED-TO-CONVERGE POINTS                   ##
-        # ############################################################
-        # Identify diverging and/or invalid points:
-        invalid = ((~np.all(np.isfinite(pix), axis=1)) &
-                   (np.all(np.isfinite(world0), axis=1)))
+                        # Apply correction:
+                        dpixgood = dpixnew[iconv]
+                        pix[iiconv] -= dpixgood
+                        dpix[iiconv] = dpixgood
 
-        # When detect_divergence is False, dnprev is outdated
-        # (it is the norm of the very first correction).
-        # Still better than nothing...
-        inddiv, = np.where(((dn >= tol2) & (dn >= dnprev)) | invalid)
-        if inddiv.shape[0] == 0:
-            inddiv = None
+                        # Find indices of solutions that have not yet
+                        # converged to the requested accuracy
+                        # AND that do not diverge:
+                        subind, = np.where((dnnew >= tol2) & conv)
 
-        # If there are divergent points, attempt to find a solution using
-        # scipy's 'hybr' method:
-        if detect_divergence and inddiv is not None and inddiv.size:
-            bad = []
-            for idx in inddiv:
-                worldi = world0[idx]
-                result = optimize.root(
-                    froot,
-                    pix0[idx],
-                    method='hybr',
-                    tol=tolerance / (np.linalg.norm(pix0[idx]) + 1),
-                    options={'maxfev': 2 * maxiter}
-                )
+                    else:
+                        # Apply correction:
+                        pix[ind] -= dpixnew
+                        dpix[ind] = dpixnew
 
-                if result['success']:
-                    pix[idx, :] = result['x']
-                    invalid[idx] = False
-                else:
-                    bad.append(idx)
+                        # Find indices of solutions that have not yet
+                        # converged to the requested accuracy:
+                        subind, = np.where(dnnew >= tol2)
 
-            if bad:
-                inddiv = np.array(bad, dtype=int)
-            else:
+                    # Choose solutions that need more iterations:
+                    ind = ind[subind]
+                    world = world[subind]
+
+                    k += 1
+
+            # ############################################################
+            # #         FINAL DETECTION OF INVALID, DIVERGING,          ##
+            # #         AND FAILED-TO-CONVERGE POINTS                   ##
+            # ############################################################
+            # Identify diverging and/or invalid points:
+            invalid = ((~np.all(np.isfinite(pix), axis=1)) &
+                       (np.all(np.isfinite(world0), axis=1)))
+
+            # When detect_divergence is False, dnprev is outdated
+            # (it is the norm of the very first correction).
+            # Still better than nothing...
+            inddiv, = np.where(((dn >= tol2) & (dn >= dnprev)) | invalid)
+            if inddiv.shape[0] == 0:
                 inddiv = None
 
-        # Identify points that did not converge within 'maxiter'
-        # iterations:
-        if k >= maxiter:
-            ind, = np.where((dn >= tol2) & (dn < dnprev) & (~invalid))
-            if ind.shape[0] == 0:
-                ind = None
-        else:
-            ind = None
+            # If there are divergent points, attempt to find a solution using
+            # scipy's 'hybr' method:
+            if detect_divergence and inddiv is not None and inddiv.size:
+                bad = []
+                for idx in inddiv:
+                    worldi = world0[idx]
+                    result = optimize.root(
+                        froot,
+                        pix0[idx],
+                        method='hybr',
+                        tol=tolerance / (np.linalg.norm(pix0[idx]) + 1),
+                        options={'maxfev': 2 * maxiter}
+                    )
 
-        # Restore previous numpy error settings:
-        np.seterr(invalid=old_invalid, over=old_over)
+                    if result['success']:
+                        pix[idx, :] = result['x']
+                        invalid[idx] = False
+                    else:
+                        bad.append(idx)
+
+                if bad:
+                    inddiv = np.array(bad, dtype=int)
+                else:
+                    inddiv = None
+
+            # Identify points that did not converge within 'maxiter'
+            # iterations:
+            if k >= maxiter:
+                ind, = np.where((dn >= tol2) & (dn < dnprev) & (~invalid))
+                if ind.shape[0] == 0:
+                    ind = None
+            else:
+                ind = None
+
 
         # ############################################################
         # #  RAISE EXCEPTION IF DIVERGING OR TOO SLOWLY CONVERGING  ##
